@@ -67,3 +67,47 @@ W.contract(
     },
     props=["C03", "C04", "C05", "C06", "C18", "C20"],
 )
+
+# ---- C03 / C04 / C06: what the lexer specification says about literal payloads
+W.lemma(
+    "string_payload_is_data",
+    vars=dict(p=STR, rest=STR),
+    requires=["strbody(p)"],
+    goal="str_scan(p + '`' + rest) == len(p) and str_val(p + '`' + rest) == p",
+    ih=[dict(at=dict(p="p[2:]"), measure="len(p)", when="len(p) >= 2 and p[0] == '\\\\'"),
+        dict(at=dict(p="p[1:]"), measure="len(p)", when="len(p) >= 1 and p[0] != '\\\\'")],
+    hints=["unfold(strbody(p))", "unfold(str_scan(p + '`' + rest))", "unfold(str_val(p + '`' + rest))",
+           "(p + '`' + rest)[2:] == p[2:] + '`' + rest or len(p) < 2", "(p + '`' + rest)[1:] == p[1:] + '`' + rest or len(p) < 1"],
+    fuel=0,
+    props=["C03", "C06"],
+    note="`p` followed by a back-quote: the string token is exactly p and lexing resumes right after the closing quote, whatever p contains",
+)
+
+W.lemma(
+    "unterminated_string_same_token",
+    vars=dict(p=STR),
+    requires=["strbody(p)"],
+    goal="str_val(p) == p and str_scan(p) == len(p)",
+    ih=[dict(at=dict(p="p[2:]"), measure="len(p)", when="len(p) >= 2 and p[0] == '\\\\'"),
+        dict(at=dict(p="p[1:]"), measure="len(p)", when="len(p) >= 1 and p[0] != '\\\\'")],
+    hints=["unfold(strbody(p))", "unfold(str_scan(p))", "unfold(str_val(p))"],
+    fuel=0,
+    props=["C04"],
+    note="a string left unterminated at the end of the program yields the same token as the closed one (with string_payload_is_data, rest = '')",
+)
+
+W.lemma(
+    "compressed_payload_is_data",
+    vars=dict(p=STR, h=STR, rest=STR),
+    requires=["len(h) == 1", "not (h in p)"],
+    goal="until(p + h + rest, h) == p and (p + h + rest)[len(p) + 1:] == rest and until(p, h) == p",
+    props=["C03", "C04", "C15"],
+)
+
+W.lemma(
+    "comment_is_skipped",
+    vars=dict(p=STR, rest=STR),
+    requires=["not ('\\n' in p)"],
+    goal="after_line(p + '\\n' + rest) == rest and after_line(p) == ''",
+    props=["C03"],
+)
